@@ -17,6 +17,9 @@ import ZygoVerif.Generated.ReadPrint
 import ZygoVerif.Generated.LexTables
 import ZygoVerif.Proofs.ReadPrintMain
 import ZygoVerif.Proofs.LiteralValue
+import ZygoVerif.Proofs.LiteralNotations
+import ZygoVerif.Proofs.LiteralSpec
+import ZygoVerif.Proofs.EvalPrint
 namespace ZygoVerif.Props.C12
 open ZygoVerif ZygoVerif.Lexer ZygoVerif.Parser ZygoVerif.PrintData ZygoVerif.EvalData
 open ZygoVerif.Spec.DataValue ZygoVerif.ReadPrint
@@ -164,19 +167,250 @@ def sameNumber : Sexp → Sexp → Prop
   | .float a _, .float b _ => a = b ∨ (isNaNBits a = true ∧ isNaNBits b = true)
   | _, _ => False
 
-/-- **Full statement** (NOT proved; compared on every generated and every enumerated spelling by
-the `rt` channel: impl vs `Spec.require`, and `Spec.mathValue`/`nearestF64` vs math/big): a
-spelling in a notation the property lists is read as exactly its mathematical value (or refused
-when that value does not fit the type); any other spelling is either not read as a number or
-read as exactly its value. (`-.5` was a recorded finding until repo fix C12-05:
-`neg_fraction_begins`, `neg_fraction_fixed`, `neg_fraction_counterexample`.) -/
-def LiteralValue : Prop :=
-  ∀ s : List Char, match require s with
+/-- what the specification demands of the reader for ONE spelling `s`: a spelling in a notation the
+property lists is read as exactly its mathematical value (or refused when that value does not fit the
+type); any other spelling is either not read as a number or read as exactly its value. -/
+def LiteralValueAt (s : List Char) : Prop :=
+  match require s with
     | .must (some v) => ∃ x, readLiteral s = some x ∧ sameNumber x v
     | .must none => readLiteral s = none
     | .may (some v) => readLiteral s = none ∨ ∃ x, readLiteral s = some x ∧ sameNumber x v
     | .may none => readLiteral s = none
     | .notNumber => readLiteral s = none
+
+/-- a spelling is one word: no white space in it (`Spec.mathValue` judges the spelling as a whole, the
+reader skips blanks around a literal) -/
+def oneWord (s : List Char) : Bool := s.all (fun c => !(c == ' ' || c == '\t' || c == '\n' || c == '\r'))
+
+/-- **Full statement** (NOT proved in full — see `literal_value_partial` for the proved notations; the
+rest is compared on every generated and every enumerated spelling by the `rt` channel: impl vs
+`Spec.require`, and `Spec.mathValue`/`nearestF64` vs math/big): every spelling is read as the
+specification demands. (`-.5` was a recorded finding until repo fix C12-05: `neg_fraction_begins`,
+`neg_fraction_fixed`, `neg_fraction_counterexample`.) -/
+def LiteralValue : Prop := ∀ s : List Char, oneWord s = true → LiteralValueAt s
+
+/-- why the full statement speaks of one-word spellings only: `1 ` (with a blank) is not a numeral to
+`Spec.mathValue`, and the reader — rightly — reads the number 1 -/
+theorem literal_value_blank_counterexample : ¬ ∀ s : List Char, LiteralValueAt s := by
+  intro h
+  have h1 : readLiteral "1 ".toList = none := h "1 ".toList
+  have h2 : (readLiteral "1 ".toList).isSome = true := by decide +kernel
+  rw [h1] at h2
+  cases h2
+
+/-! ### the integer notations, proved for every spelling -/
+
+theorem readLiteral_int (s : List Char) (v : Int) (h : readAll s = some [.int v]) : readLiteral s = some (.int v) := by
+  simp [readLiteral, h]
+
+theorem readLiteral_uint (s : List Char) (n : Nat) (h : readAll s = some [.uint n]) : readLiteral s = some (.uint n) := by
+  simp [readLiteral, h]
+
+theorem readLiteral_none (s : List Char) (h : readAll s = none) : readLiteral s = none := by
+  simp [readLiteral, h]
+
+/-- from the reader's answer to the specification's demand, for an integer verdict (`must` and `may`) -/
+theorem at_of_int (s : List Char) (v : Int) (sup : Bool) (h : mathValue s = some (.int v, sup))
+    (hr : readAll s = if -(2 : Int) ^ 63 ≤ v ∧ v < 2 ^ 63 then some [.int v] else none) : LiteralValueAt s := by
+  unfold LiteralValueAt require
+  rw [h]
+  by_cases hv : -(2 : Int) ^ 63 ≤ v ∧ v < 2 ^ 63
+  · rw [if_pos hv] at hr
+    have hx := readLiteral_int s v hr
+    cases sup
+    · simp only [denote, hv, and_self, ↓reduceIte]
+      exact Or.inr ⟨_, hx, rfl⟩
+    · simp only [denote, hv, and_self, ↓reduceIte]
+      exact ⟨_, hx, rfl⟩
+  · rw [if_neg hv] at hr
+    have hx := readLiteral_none s hr
+    cases sup <;> simp only [denote, hv, ↓reduceIte] <;> exact hx
+
+theorem intAnswer_eq (n : Nat) :
+    Literal.intAnswer n = if -(2 : Int) ^ 63 ≤ (n : Int) ∧ (n : Int) < 2 ^ 63 then some [.int (n : Int)] else none := by
+  unfold Literal.intAnswer
+  have : (-(2 : Int) ^ 63 ≤ (n : Int) ∧ (n : Int) < 2 ^ 63) ↔ n < 2 ^ 63 := by omega
+  by_cases hn : n < 2 ^ 63
+  · rw [if_pos hn, if_pos (this.mpr hn)]
+  · rw [if_neg hn, if_neg (fun h => hn (this.mp h))]
+
+theorem negAnswer_eq (n : Nat) :
+    Literal.negAnswer n = if -(2 : Int) ^ 63 ≤ -(n : Int) ∧ -(n : Int) < 2 ^ 63 then some [.int (-(n : Int))] else none := by
+  unfold Literal.negAnswer
+  have : (-(2 : Int) ^ 63 ≤ -(n : Int) ∧ -(n : Int) < 2 ^ 63) ↔ n ≤ 2 ^ 63 := by omega
+  by_cases hn : n ≤ 2 ^ 63
+  · rw [if_pos hn, if_pos (this.mpr hn)]
+  · rw [if_neg hn, if_neg (fun h => hn (this.mp h))]
+
+/-- **`literal_value_int`** — EVERY spelling to which the specification gives an integer verdict and that
+does not begin with `+` — i.e. every hex `0x…`, octal `0o…`, binary `0b…` literal, every decimal literal
+`D[D_]*` with or without a minus sign (underscores well placed: a `must`; misplaced as in `1__0`, `1_`: a
+`may`, and the reader reads the value all the same) — is read by the reader model (lexer from a fresh state,
+`DecodeAtom` cascade, `ParseInt` with its base, top-level loop, end of input) as EXACTLY the positional value
+Σ dᵢ·bⁿ⁻¹⁻ⁱ of its digits with its sign, and is refused (a parse error) exactly when that value is outside
+[−2⁶³, 2⁶³). No bound on the length. Not covered: a leading `+` (`+5`: the specification says "may", the
+reader reads the symbol `+` and the number) and a minus sign on a based literal (`-0x10`: "may", read as a
+symbol). -/
+theorem literal_value_int (s : List Char) (v : Int) (sup : Bool) (h : mathValue s = some (.int v, sup))
+    (hcov : sup = true ∨ (∃ body, (s = body ∨ s = '-' :: body) ∧ digitsUnderscores body = true)) :
+    LiteralValueAt s := by
+  have h0 := h
+  rw [Literal.mathValue_eq] at h
+  rcases Literal.signOf_cases s with ⟨r, rfl, hs⟩ | ⟨r, rfl, hs⟩ | ⟨hs, hm, hp⟩
+  · -- a minus sign
+    rw [hs] at h
+    rcases Literal.mathBody_int _ _ _ _ h with ⟨base, ds, l, hb, hd, hv, hsup⟩ | ⟨hdu, l, hd, hv, hsup⟩
+    · -- `-0x…`: not a listed notation
+      exfalso
+      rcases hcov with rfl | ⟨body, hb2, hdu⟩
+      · simp at hsup
+      · rcases hb2 with hb2 | hb2
+        · rw [← hb2] at hdu; simp [digitsUnderscores, isDigit] at hdu
+        · simp only [List.cons.injEq, true_and] at hb2
+          subst hb2
+          rcases Literal.basedOf_some _ _ _ hb with ⟨rfl, _⟩ | ⟨rfl, _⟩ | ⟨rfl, _⟩ <;>
+            simp [digitsUnderscores, isDigit] at hdu
+    · have hv' : v = -(posValue 10 l : Int) := by simpa using hv
+      subst hv'
+      exact at_of_int _ _ sup h0 (by rw [Literal.read_neg_decimal r l hdu hd, negAnswer_eq])
+  · -- a plus sign: never `must`, and excluded from the loose part
+    exfalso
+    rw [hs] at h
+    rcases hcov with rfl | ⟨body, hb2, hdu⟩
+    · rcases Literal.mathBody_int _ _ _ _ h with ⟨base, ds, l, hb, hd, hv, hsup⟩ | ⟨hdu, l, hd, hv, hsup⟩
+      · simp at hsup
+      · simp at hsup
+    · rcases hb2 with hb2 | hb2
+      · rw [← hb2] at hdu; simp [digitsUnderscores, isDigit] at hdu
+      · simp at hb2
+  · -- no sign
+    rw [hs] at h
+    rcases Literal.mathBody_int _ _ _ _ h with ⟨base, ds, l, hb, hd, hv, hsup⟩ | ⟨hdu, l, hd, hv, hsup⟩
+    · have hv' : v = (posValue base l : Int) := by simpa using hv
+      subst hv'
+      rcases Literal.basedOf_some _ _ _ hb with ⟨rfl, rfl⟩ | ⟨rfl, rfl⟩ | ⟨rfl, rfl⟩
+      · exact at_of_int _ _ sup h0 (by rw [Literal.read_hex ds l hd, intAnswer_eq])
+      · exact at_of_int _ _ sup h0 (by rw [Literal.read_oct ds l hd, intAnswer_eq])
+      · exact at_of_int _ _ sup h0 (by rw [Literal.read_binary ds l hd, intAnswer_eq])
+    · have hv' : v = (posValue 10 l : Int) := by simpa using hv
+      subst hv'
+      exact at_of_int _ _ sup h0 (by rw [Literal.read_decimal s l hdu hd, intAnswer_eq])
+
+/-- non-vacuity: spellings with an integer `must` verdict in each notation (underscores, sign, the
+smallest int64, a value beyond int64 which must be refused) -/
+example : mathValue "0xfF".toList = some (.int 255, true) ∧ mathValue "0o17".toList = some (.int 15, true) ∧
+    mathValue "0b101".toList = some (.int 5, true) ∧ mathValue "1_000".toList = some (.int 1000, true) ∧
+    mathValue "-9223372036854775808".toList = some (.int (-9223372036854775808), true) ∧
+    mathValue "9223372036854775808".toList = some (.int 9223372036854775808, true) ∧
+    mathValue "1__0".toList = some (.int 10, false) := by decide +kernel
+
+example : LiteralValueAt "-9223372036854775808".toList :=
+  literal_value_int _ _ _ (by decide +kernel : mathValue "-9223372036854775808".toList = some (.int (-9223372036854775808), true)) (Or.inl rfl)
+
+/-- **`literal_value_uint`** — EVERY spelling to which the specification gives a uint64 verdict
+(`<decimal digits>ULL`, `0x<hex digits>ULL`, `0o<octal digits>ULL`) is read as exactly the positional value
+of its digits, as a uint64, and refused exactly when the value is ≥ 2⁶⁴. -/
+theorem literal_value_uint (s : List Char) (n : Nat) (sup : Bool) (h : mathValue s = some (.uint n, sup)) :
+    LiteralValueAt s := by
+  have h0 := h
+  rw [Literal.mathValue_eq] at h
+  obtain ⟨hsn, rfl, d, hd, hcases⟩ := Literal.mathBody_uint _ _ _ _ h
+  have hbody : (Literal.signOf s).2 = s := by
+    rcases Literal.signOf_cases s with ⟨r, rfl, hs⟩ | ⟨r, rfl, hs⟩ | ⟨hs, _, _⟩
+    · rw [hs] at hsn; cases hsn
+    · rw [hs] at hsn; cases hsn
+    · rw [hs]
+  rw [hbody] at hd
+  have hsd := Literal.stripSuffix?_some _ _ _ hd
+  have hr : readAll s = Literal.uintAnswer n := by
+    rcases hcases with ⟨ds, l, rfl, hl, rfl⟩ | ⟨ds, l, rfl, hl, rfl⟩ | ⟨l, hl, rfl⟩
+    · rw [hsd]; exact Literal.read_uint_hex ds l hl
+    · rw [hsd]; exact Literal.read_uint_oct ds l hl
+    · rw [hsd]; exact Literal.read_uint_dec d l hl
+  unfold LiteralValueAt require
+  rw [h0]
+  unfold Literal.uintAnswer at hr
+  by_cases hn : n < 2 ^ 64
+  · rw [if_pos hn] at hr
+    simp only [denote, hn, ↓reduceIte]
+    exact ⟨_, readLiteral_uint s n hr, rfl⟩
+  · rw [if_neg hn] at hr
+    simp only [denote, hn, ↓reduceIte]
+    exact readLiteral_none s hr
+
+example : mathValue "255ULL".toList = some (.uint 255, true) ∧ mathValue "0xffULL".toList = some (.uint 255, true) ∧
+    mathValue "0o17ULL".toList = some (.uint 15, true) ∧
+    mathValue "18446744073709551616ULL".toList = some (.uint 18446744073709551616, true) := by decide +kernel
+
+/-! ### `Inf` and `NaN` -/
+
+def floatBitsOf : Option Sexp → Option Nat
+  | some (.float b _) => some b
+  | _ => none
+
+theorem sameNumber_of_bits (o : Option Sexp) (b : Nat) (h : floatBitsOf o = some b) :
+    ∃ x, o = some x ∧ sameNumber x (.float b false) := by
+  cases o with
+  | none => cases h
+  | some x =>
+    cases x <;> simp only [floatBitsOf, Option.some.injEq, reduceCtorEq] at h
+    subst h
+    exact ⟨_, rfl, Or.inl rfl⟩
+
+/-- **`literal_value_inf_nan`** — the supported spellings of the specification's infinities and NaN (`Inf`,
+`-Inf`, `+Inf`: the parser folds the sign symbol into the following `Inf` token; `NaN`) are read as the
+IEEE values +∞, −∞, +∞ and a NaN. (The finite fraction/exponent literals are NOT covered: see
+`literal_value_partial`.) -/
+theorem literal_value_inf_nan (s : List Char) (nv : NumVal) (h : mathValue s = some (nv, true))
+    (hk : nv = .nan ∨ ∃ neg, nv = .inf neg) : LiteralValueAt s := by
+  rw [Literal.mathValue_eq] at h
+  have cInf : LiteralValueAt "Inf".toList :=
+    sameNumber_of_bits _ 0x7ff0000000000000 (by decide +kernel)
+  have cNeg : LiteralValueAt ('-' :: "Inf".toList) :=
+    sameNumber_of_bits _ 0xfff0000000000000 (by decide +kernel)
+  have cPos : LiteralValueAt ('+' :: "Inf".toList) :=
+    sameNumber_of_bits _ 0x7ff0000000000000 (by decide +kernel)
+  have cNaN : LiteralValueAt "NaN".toList :=
+    sameNumber_of_bits _ 0x7ff8000000000001 (by decide +kernel)
+  rcases Literal.signOf_cases s with ⟨r, rfl, hs⟩ | ⟨r, rfl, hs⟩ | ⟨hs, _, _⟩
+  · rw [hs] at h
+    rcases Literal.mathBody_special _ _ _ h hk with rfl | ⟨hn, _⟩
+    · exact cNeg
+    · cases hn
+  · rw [hs] at h
+    rcases Literal.mathBody_special _ _ _ h hk with rfl | ⟨hn, _⟩
+    · exact cPos
+    · cases hn
+  · rw [hs] at h
+    rcases Literal.mathBody_special _ _ _ h hk with rfl | ⟨_, rfl⟩
+    · exact cInf
+    · exact cNaN
+
+example : mathValue "-Inf".toList = some (.inf true, true) ∧ mathValue "NaN".toList = some (.nan, true) := by decide +kernel
+
+/-- the one-word spellings for which `LiteralValue` is proved: every integer verdict without a leading `+`
+(hex, octal, binary, decimal with underscores, minus sign), every uint64 verdict (`…ULL` in base 10, 16, 8),
+and the supported `Inf`/`NaN` words -/
+def CoveredSpelling (s : List Char) : Prop :=
+  (∃ v sup, mathValue s = some (.int v, sup) ∧
+      (sup = true ∨ ∃ body, (s = body ∨ s = '-' :: body) ∧ digitsUnderscores body = true)) ∨
+  (∃ n sup, mathValue s = some (.uint n, sup)) ∨
+  (∃ nv, mathValue s = some (nv, true) ∧ (nv = .nan ∨ ∃ neg, nv = .inf neg))
+
+/-- **`literal_value_partial`** — the proved part of `LiteralValue`: for every covered spelling (of any
+length) the reader model answers what the specification demands. Missing from the full statement: the
+finite fraction/exponent literals (verdict `.dec`: the model's `ParseFloat` rounding vs `Spec.nearestF64`, both
+exact algorithms, compared bit for bit on every op but not proved equal), spellings with a leading `+` and
+signed based literals (verdict `may`), and the spellings that are no numbers (that the reader reads nothing
+else as a number). -/
+theorem literal_value_partial (s : List Char) (h : CoveredSpelling s) : LiteralValueAt s := by
+  rcases h with ⟨v, sup, h, hc⟩ | ⟨n, sup, h⟩ | ⟨nv, h, hk⟩
+  · exact literal_value_int s v sup h hc
+  · exact literal_value_uint s n sup h
+  · exact literal_value_inf_nan s nv h hk
+
+example : CoveredSpelling "0x7fffffffffffffff".toList :=
+  Or.inl ⟨9223372036854775807, true, by decide +kernel, Or.inl rfl⟩
 
 /-- **`literal_value_partial`** (1): `strconv.ParseInt/ParseUint` as the parser uses them
 (Horner evaluation) compute the POSITIONAL value Σ dᵢ·baseⁿ⁻¹⁻ⁱ of the specification, for every
@@ -187,10 +421,8 @@ theorem literal_digits_positional (base : Nat) (ds : List Char) :
 
 /-- **`literal_value_partial`** (2): the hex, octal, binary and (unsigned) decimal-with-underscores
 tokens convert to the positional value of their digits when it fits int64, and to an error
-otherwise. Missing from the full statement: the classification of every spelling by the cascade
-(tied by T1 + the exhaustive enumeration), signs, the uint64 suffix for non-canonical spellings,
-and fraction/exponent literals (`ParseFloat` is modelled by exact rounding in Model/NumLit and
-compared bit for bit with strconv and with `Spec.nearestF64` on every op). -/
+otherwise. (The step from a spelling to its token and on to the reader's answer: `literal_value_int`,
+`literal_value_uint`.) -/
 theorem literal_int_tokens (c : Char) (r : List Char) :
     (isHexC c = true → atomOfTok ⟨.hex, c :: r⟩ = some (Literal.numeralValue 16 (c :: r))) ∧
     (isHexC c = true → atomOfTok ⟨.oct, c :: r⟩ = some (Literal.numeralValue 8 (c :: r))) ∧
@@ -243,6 +475,27 @@ the parser and `MakeHash`/`HashSet` (Model/EvalData). -/
 def EvalPrintJsonlike : Prop :=
   ∀ (ff : FloatFmt), FloatLaw ff → ∀ v : JV, isJsonLike v = true →
     (readOne (printJ ff v)).bind evalData = some v
+
+/-- **`eval_print_jsonlike_partial`** — proved part of `EvalPrintJsonlike`, by structural induction (any
+nesting depth, any length): every JSON-like value WITHOUT A HASH inside and with finite floats — 64-bit
+integers, finite floats (relative to `FloatLaw`), strings of any runes, booleans, nil, arrays of such values
+nested to any depth — printed, read (`read_print_data_partial` on the data value `toRead v` that the text
+denotes) and evaluated (arrays element-wise, atoms to themselves) is the value again. `nil` is INCLUDED: it
+prints as `nil`, reads back as the symbol `nil` (the known finding of the data half), and that symbol
+evaluates to nil. Missing from the full statement: hashes (`{k:v …}` is read through the `{` look-ahead and
+`MakeHash`/`HashSet`: model vs implementation vs specification on every generated hash, `rt e` ops) and
+±Inf. -/
+theorem eval_print_jsonlike_partial (ff : FloatFmt) (hlaw : FloatLaw ff) (v : JV) (hj : isJsonLike v = true)
+    (hf : hashFree v = true) : (readOne (printJ ff v)).bind evalData = some v :=
+  eval_print_hashFree ff hlaw v hj hf
+
+/-- non-vacuity: `[1 "a\"b" [nil true 2.5] []]` is JSON-like and hash-free -/
+example : isJsonLike (.arr [.int 1, .str ['a', '"', 'b'], .arr [.nil, .bool true, .flt 0x4004000000000000 false], .arr []]) = true ∧
+    hashFree (.arr [.int 1, .str ['a', '"', 'b'], .arr [.nil, .bool true, .flt 0x4004000000000000 false], .arr []]) = true := by
+  decide +kernel
+
+/-- what `nil` does on the way: printed `nil`, read as the symbol, evaluated to nil -/
+example : toRead .nil = .sym "nil".toList false false ∧ evalData (.sym "nil".toList false false) = some .nil := ⟨rfl, by rfl⟩
 
 /-- fix C12-04 at work: a string key holding a quote and a backslash is printed as a string
 literal that reads back (the escapes are those of `string_literal_roundtrip`) -/
